@@ -119,7 +119,8 @@ def _gen_case(rng, tier, g):
     return {'prop': PROP, 'cols': cols, 'table': table, 'other': other,
             'prior': prior, 'combos': [list(c) for c in combos],
             'prefix': rng.choice(['none', 'none', 'uncommitted-then-commit',
-                                  'failed-then-rollback', 'pending-dml']),
+                                  'failed-then-rollback', 'pending-dml',
+                                  'uncommitted-pending']),
             'pipeline': rng.random() < 0.3,
             'schema': rng.choice([None, None, 'main']),
             # identifier quoting: names with a space, reserved words
@@ -130,7 +131,9 @@ def _gen_case(rng, tier, g):
             # purposes must not swallow a source failure)
             'exc_kinds': rng.sample(SOURCE_ERROR_KINDS,
                                     rng.choice([1, 2, 3])),
-            'read_via': rng.choice(['conn', 'name', 'mkcurs', 'cursor']),
+            'read_via': rng.choice(['conn', 'name', 'mkcurs', 'cursor',
+                                    'proxy-mkcurs', 'proxy-cursor']),
+            'arraysize': rng.choice([None, 1, 2, 4, 50]),
             'attach': rng.random() < 0.3, 'big': big or wide, 'wide': wide,
             # where the rows come from: a simulated table, or another table
             # of the same database read with fromdb through the caller's own
@@ -176,6 +179,38 @@ def _as_rows(cols, table):
         d = dict(zip(hdr, r))
         out.append(tuple(d.get(c) for c in cols))
     return out
+
+
+class _CursorProxy(object):
+    """A delegating cursor wrapper of the kind petl's documentation shows for
+    drivers that need one (todb docstring): every method is forwarded, but the
+    wrapper is not iterable, so fromdb falls back on the fetch* methods."""
+
+    def __init__(self, cursor, arraysize=None):
+        self._cursor = cursor
+        if arraysize is not None:
+            cursor.arraysize = arraysize
+
+    def execute(self, *a, **k):
+        return self._cursor.execute(*a, **k)
+
+    def executemany(self, sql, rows):
+        return self._cursor.executemany(sql, rows)
+
+    def fetchone(self):
+        return self._cursor.fetchone()
+
+    def fetchmany(self, *a, **k):
+        return self._cursor.fetchmany(*a, **k)
+
+    def fetchall(self):
+        return self._cursor.fetchall()
+
+    def close(self):
+        return self._cursor.close()
+
+    def __getattr__(self, name):
+        return getattr(self._cursor, name)
 
 
 def _mk_dbo(handle, path, caller):
@@ -275,6 +310,8 @@ def _one(e, case, path, op, handle, commit, fault, log):
         caller.execute('ATTACH DATABASE ? AS aux', (tpath,))
         _SCHEMA[0] = 'aux'
     fired = 0
+    mine = False
+    pending_rows = []
     try:
         # ---- history prefix (through the same kind of handle) ----------
         if case['prefix'] == 'uncommitted-then-commit' and caller is not None:
@@ -290,6 +327,16 @@ def _one(e, case, path, op, handle, commit, fault, log):
             # it hands it to petl
             caller.execute('create table if not exists mine (x)')
             caller.execute('insert into mine values (1)')
+            mine = True
+        elif case['prefix'] == 'uncommitted-pending' and caller is not None:
+            # an earlier load with commit=False is still pending on the
+            # connection: its rows are part of the transaction the load
+            # under test continues (and, with commit=True, commits)
+            _safe_load(e, 'appenddb', other, _mk_dbo(handle, path, caller),
+                       False, what + ' [prefix]')
+            _check(tpath, cols, model, what + ' [prefix: append commit=False]',
+                   pending=True)
+            pending_rows = _as_rows(cols, other)
         elif case['prefix'] == 'failed-then-rollback':
             src0 = SimTable(other, mode='copy')
             src0.arm(len(other) - 1)
@@ -318,7 +365,8 @@ def _one(e, case, path, op, handle, commit, fault, log):
             expect_exc = sqlite3.ProgrammingError
         src = SimTable(rows, mode='copy')
         from_db = case.get('source_kind') == 'fromdb-same-conn' and \
-            caller is not None and not (fault and fault[0] == 'badrow')
+            caller is not None and not (fault and fault[0] == 'badrow') \
+            and not pending_rows
         if from_db:
             # the rows sit in another table of the same database and are read
             # through the caller's own connection while it is being loaded
@@ -369,7 +417,15 @@ def _one(e, case, path, op, handle, commit, fault, log):
                                    getattr(expect_exc, '__name__',
                                            'the injected failure')))
         new = _as_rows(cols, table) if op == 'todb' \
-            else model + _as_rows(cols, table)
+            else model + pending_rows + _as_rows(cols, table)
+        if mine and raised is None:
+            # the caller's own pending work is still there (committed or
+            # pending with the rest, never rolled back behind its back)
+            got_mine = caller.execute('select x from mine').fetchall()
+            if got_mine != [(1,)]:
+                raise _Bad('caller-work-lost', '%s: the row the caller had '
+                           'inserted into another table before the call is '
+                           'gone: %r' % (what, got_mine))
         if raised is not None:
             # nothing is committed, whatever the commit flag
             _check(tpath, cols, model, what + ' [after the failed call]',
@@ -386,12 +442,16 @@ def _one(e, case, path, op, handle, commit, fault, log):
                 via = case.get('read_via', 'conn')
                 rh = {'conn': rd, 'name': tpath,
                           'cursor': rd.cursor(),
-                          'mkcurs': (lambda: rd.cursor())}[via]
+                          'mkcurs': (lambda: rd.cursor()),
+                          'proxy-mkcurs': (lambda: _CursorProxy(
+                              rd.cursor(), case.get('arraysize'))),
+                          'proxy-cursor': _CursorProxy(
+                              rd.cursor(), case.get('arraysize'))}[via]
                 view = e.fromdb(rh, 'select %s from "%s" order by rowid'
                                 % (', '.join('"%s"' % c for c in cols),
                                    _TNAME[0]))
                 got = [tuple(r) for r in iter(view)]
-                if via != 'cursor':
+                if via not in ('cursor', 'proxy-cursor'):
                     # a second pass returns the same rows
                     again = [tuple(r) for r in iter(view)]
                     if canon_rows(again) != canon_rows(got):
